@@ -515,6 +515,13 @@ def call(ex, callee, args):
             model("PartialEq on str / integers / bool")
             return BoolV(z3.simplify(r if tt[2] == "eq" else z3.Not(r)))
         return NotImplemented
+    if tt and tt[1].startswith("std::ops::Index<std::ops::RangeFull>") and tt[2] == "index":
+        v = deref_all(ex, args[0])
+        if isinstance(v, Str):
+            model("String[..] = the whole text")
+            return v
+        if isinstance(v, VecV):
+            return args[0]
     if tt and tt[1] in ("std::ops::Deref", "std::ops::DerefMut") and tt[2] in ("deref", "deref_mut"):
         t0 = strip_generics(tt[0])
         if t0.endswith("::String"):
@@ -724,6 +731,17 @@ def call(ex, callee, args):
         if last in ("new", "with_capacity", "default"):
             model("BTreeMap::new")
             return MapV([])
+        if last == "get_mut":
+            model("BTreeMap::get_mut: exact key lookup, newest binding (a binding of the abstract base is materialised as a newer one)")
+            key = as_str(ex, args[1])
+            lab, r = map_lookup(ex, args[0], key)
+            if lab != "hit":
+                return NONE()
+            if r.cell.ro and not (isinstance(args[0], Ref) and args[0].cell.ro):
+                map_insert(ex, args[0], key, copy_val(ex.read_ref(r)))
+                m = deref_all(ex, args[0])
+                r = Ref(args[0].cell, args[0].path + (("kv", len(m.layers) - 1),), True)
+            return some(r)
         if last == "get":
             model("BTreeMap::get: exact key lookup, newest binding")
             lab, r = map_lookup(ex, args[0], as_str(ex, args[1]))
@@ -988,6 +1006,8 @@ def call(ex, callee, args):
 
 def option_result(ex, base, last, args, full):
     v = args[0]
+    if isinstance(v, Ref) and last in ("is_none", "is_some", "is_ok", "is_err", "as_ref", "as_deref", "as_mut", "is_some_and"):
+        v = deref_all(ex, v)
     if not isinstance(v, Agg) or v.ty not in ("Option", "Result"):
         raise Unsupported(f"{base} on {v}")
     is_opt = v.ty == "Option"
